@@ -478,6 +478,60 @@ def check_live(c):
     return nontrivial, classes
 
 
+# ---- strategies with different listener filters on one recording (one historical stream each) ----------------------
+
+
+@st.composite
+def filters_case(draw, tier="quick"):
+    """no orders; every strategy follows the same market file, through its own stream when its listener filter differs:
+    the recording is replayed once per stream and each replay ends with the closure - each strategy is called once,
+    for the closing update of ITS stream"""
+    spec = world.default_market(0, 2)
+    n = draw(st.integers(1, 5))
+    feats = {"remove": 0, "suspend": 1, "inplay": 1, "books": 3, "trades": 2, "close": False, "max_dt_ms": 3000}
+    body, states = draw(gen.timeline(spec, n, feats))
+    if states[-1]["status"] != "OPEN":
+        body.append({"dt": 1000, "k": "open", "bump": True})
+    spec["steps"] = body + ending_steps(draw, spec, "close", states[-1]["removed"])
+    spec["_ending"] = "close"
+    LKS = [{}, {"inplay": False}, {"inplay": True}, {"seconds_to_start": 10}, {"max_inplay_seconds": 5}]
+    names = ["A", "B", "C"][: draw(st.integers(2, 3))]
+    strategies = []
+    for nme in names:
+        s_ = gen.strategy_spec(nme, script=[])
+        s_["listener_kwargs"] = draw(st.sampled_from(LKS))
+        strategies.append(s_)
+    return {"filters": True, "markets": [spec], "strategies": strategies, "clients": [{"min_bet_validation": False}], "config": {},
+            "event_processing": draw(st.booleans())}
+
+
+def check_filters(sc):
+    import json as _json
+
+    if not sc.get("markets") or not sc["markets"][0].get("steps") or sc["markets"][0]["steps"][-1].get("k") != "close":
+        return False, {"minimised-away"}
+    with simlab.lab(sc, snapshots=False) as lb:
+        lb.run()
+        if lb.error is not None:
+            raise crash_violation(lb.error, sc, "run-aborted")
+        mid = sc["markets"][0]["id"]
+        streams = {_json.dumps(s.get("listener_kwargs") or {}, sort_keys=True) for s in sc["strategies"]}
+        classes = {"streams:%d" % len(streams)}
+        for s in sc["strategies"]:
+            calls = [r for r in lb.log if r["cb"] == "process_closed_market" and r["strategy"] == s["name"] and r["market"] == mid]
+            if len(calls) != 1:
+                raise Violation("closed-callback-count", ("separate-streams" if len(streams) > 1 else "shared-stream", s["name"]),
+                                "strategy %s (listener %s) got process_closed_market %d times for the one closing update of its stream; listeners of all strategies: %s" % (
+                                    s["name"], s.get("listener_kwargs"), len(calls), [x.get("listener_kwargs") for x in sc["strategies"]]), sc)
+            if calls[0]["status"] != "CLOSED":
+                raise Violation("closed-callback-book", ("separate-streams",), "callback received a %s book" % calls[0]["status"], sc)
+    return len(streams) > 1, classes
+
+
+def sub_filters(col, budget, seed, tier, shard, nshards):
+    run_given(col, filters_case(tier), check_filters, budget, seed, tier, "filters")
+
+
 def sub_sim(col, budget, seed, tier, shard, nshards):
     run_given(col, sim_case(tier), check_sim, budget, seed, tier, "simulation")
 
@@ -488,11 +542,14 @@ def sub_live(col, budget, seed, tier, shard, nshards):
 
 def subchecks(tier):
     q = tier == "quick"
-    return [SubCheck("simulation", sub_sim, 1600 if q else 50000), SubCheck("live", sub_live, 1600 if q else 50000)]
+    return [SubCheck("simulation", sub_sim, 1600 if q else 50000), SubCheck("live", sub_live, 1600 if q else 50000),
+            SubCheck("filters", sub_filters, 600 if q else 20000)]
 
 
 def replay(c, sub=None):
     if "ops" in c:
         check_live(c)
+    elif c.get("filters"):
+        check_filters(c)
     else:
         check_sim(c)
